@@ -1,4 +1,4 @@
 SPECIFICATION Spec
-CONSTANTS MaxBal = 1  MaxX = 1  Banks = {2, 5}
+CONSTANTS MaxBal = 2  MaxX = 1  Banks = {0, 1, 2, 5, 7}
 INVARIANTS StakeIsMin Cap ExactWhenOver FullWhenUnder FloorShare AbsentUnpaid DustToTop LateFundsEarnNothing YieldLeqBank FullIfFits Proportional ExactBankWhenOver NeverMoreThanWanted RefundBound DevTotal
 CHECK_DEADLOCK FALSE
